@@ -641,7 +641,14 @@ fn run(args: &[String]) -> i32 {
             workers,
             max_wall_s: simcore::env_u64("VERIF_MAX_WALL_S", if tier == "thorough" { 1500 } else { 100 }) as f64,
             max_violations: 16,
-            env: determinism::worker_env(),
+            env: {
+                let mut env = determinism::worker_env();
+                if tier == "thorough" {
+                    // libc call indices enumerated per compile (all of them below this number)
+                    env.push(("SIM_ENUM_SYS_INDICES".into(), "48".into()));
+                }
+                env
+            },
         };
         let out = runner::run_batch(&cfg);
         println!("  scenario={scenario} runs={} violations_seen={} crashes={} wall={:.1}s", out.runs_done, out.violations.len(), out.crashes.len(), out.wall_s);
